@@ -1,3 +1,4 @@
 import CattrsModel.Sexp
 import CattrsModel.Conv.Driver
+import CattrsModel.Props.C02
 import CattrsModel.Props.C04
